@@ -809,9 +809,8 @@ extend p.Mid {
 		// path, a URL with a scheme, nothing at all). Every payload message is reachable ONLY through
 		// an Any value, each shape occurs directly, in a list, in a map value and next to a
 		// default-prefixed sibling, on message and on field options.
-		Name:       "any-urls",
-		Covers:     []string{"Any type URL: single-segment custom prefix", "Any type URL: prefix with a path", "Any type URL: scheme + host + path", "Any type URL: empty prefix", "Any directly as map value of an option message", "Any-typed field option", "Any payload with own field types"},
-		ExtraNames: []string{"google.protobuf.Any"},
+		Name:   "any-urls",
+		Covers: []string{"Any type URL: single-segment custom prefix", "Any type URL: prefix with a path", "Any type URL: scheme + host + path", "Any type URL: empty prefix", "Any directly as map value of an option message", "Any-typed field option", "Any payload with own field types"},
 		Files: map[string]string{
 			"opt.proto": `syntax = "proto3";
 package opt;
